@@ -44,11 +44,17 @@ pub(crate) fn remove_syntactic_sugar(
         if let Statement::Block { meta, mut stmts } = new_body {
             let (component_decs, variable_decs, mut substitutions) =
                 separate_declarations_in_comp_var_subs(declarations);
-            let mut init_block = vec![
-                build_initialization_block(meta.clone(), VariableType::Var, variable_decs),
-                build_initialization_block(meta.clone(), VariableType::Component, component_decs),
-            ];
+            // The substitutions initialize the counters generated for anonymous components
+            // inside loops. These are used as dimensions by the component declarations, so
+            // they have to be initialized before the components are declared.
+            let mut init_block =
+                vec![build_initialization_block(meta.clone(), VariableType::Var, variable_decs)];
             init_block.append(&mut substitutions);
+            init_block.push(build_initialization_block(
+                meta.clone(),
+                VariableType::Component,
+                component_decs,
+            ));
             init_block.append(&mut stmts);
             let new_body_with_inits = build_block(meta, init_block);
             let new_body = match remove_tuples_from_statement(new_body_with_inits) {
